@@ -33,8 +33,8 @@ Print Assumptions C08_incomplete_frame_not_processed.
 Theorem C08_inner_length_cannot_escape : forall fuel m id s d ending s' d' y t,
   run_state fuel m id s d ending = ROk s' d' y t ->
   (forall e, ending = Some e -> sent s' <= e) /\
-  (forall n s1 d1 l, nth_error m id = Some n -> Engine.process n s d = Some (s1, d1) ->
-     resolve_lim (n_limit n) d1 = Some (Some l) -> sent s' <= sent s1 + l).
+  (forall n s1 d1 l dl, nth_error m id = Some n -> Engine.process n s d = Some (s1, d1) ->
+     resolve_lim (n_limit n) d1 = Some (Some l, dl) -> sent s' <= sent s1 + l).
 Proof. exact run_state_limit. Qed.
 Print Assumptions C08_inner_length_cannot_escape.
 
